@@ -280,7 +280,9 @@ def reference(case, o, rel=1e-10):
             if L > 0:
                 di = np.linalg.norm(o - closest_on_segment(o, a, b))
                 S += abs(cur) / (4 * math.pi) * L / (di * (di + L))
-        H, err, ok, ev = Q.polyline_H(V, cur, o, rel * S)
+        # vertices given far from the local origin: o - l is only known to ~eps*|coordinates|
+        rel_eff = max(rel, 1e-14 * float(np.abs(V).max()) / max(s, 1e-300))
+        H, err, ok, ev = Q.polyline_H(V, cur, o, rel_eff * S)
         return H, Q.MU0 * H, S, ok, ev
     J = np.asarray(p["polarization"], float)
     Jn = np.linalg.norm(J)
@@ -463,7 +465,9 @@ def _l_prism():
 
 
 def gen_params(rng, cls):
-    sc = _logu(rng, 0.05, 20.0)            # overall length scale of the source
+    # overall length scale of the source: mostly 0.05..20, one case in five small in absolute terms
+    # (1e-9..1e-2: micro / nano structures given in SI metres; every formula is scale invariant)
+    sc = _logu(rng, 0.05, 20.0) if rng.random() < 0.8 else _logu(rng, 1e-9, 1e-2)
     if cls == "Cuboid":
         return {"polarization": _pol(rng), "dimension": [sc * _logu(rng, 0.3, 3.0) for _ in range(3)]}
     if cls == "Cylinder":
@@ -471,10 +475,14 @@ def gen_params(rng, cls):
     if cls == "CylinderSegment":
         r2 = sc * _logu(rng, 0.5, 2.0)
         r1 = 0.0 if rng.random() < 0.25 else r2 * rng.uniform(0.1, 0.85)
-        a1 = rng.choice([0.0, -90.0, 30.0, rng.uniform(-180, 180)])
+        # section angles anywhere in the documented range [-360, 360], in particular phi1 < -180
+        # (the body then covers positive atan2 azimuths through the phi - 360 alias)
+        a1 = rng.choice([0.0, -90.0, 30.0, -270.0, -200.0, rng.uniform(-180, 180), rng.uniform(-360, -180)])
         span = rng.choice([360.0, 180.0, 90.0, rng.uniform(20, 340)])
         a2 = a1 + span
-        if a2 - a1 > 360.0:
+        if a2 > 360.0:
+            a1, a2 = a1 - (a2 - 360.0), 360.0
+        if a2 - a1 > 360.0 or a1 < -360.0:
             a1, a2 = 0.0, 360.0
         return {"polarization": _pol(rng), "dimension": [r1, r2, sc * _logu(rng, 0.3, 3.0), a1, a2]}
     if cls == "Sphere":
@@ -524,6 +532,12 @@ def gen_params(rng, cls):
                 V.append(V[-1] + _unit(rng) * sc * _logu(rng, 0.2, 2.0))
         if all(np.all(V[i] == V[i + 1]) for i in range(len(V) - 1)):
             V[-1] = V[-1] + _unit(rng) * sc
+        if rng.random() < 0.15:
+            # a small structure described far from the local origin (segments tiny relative to the
+            # magnitude of their coordinates, exactly representable offset)
+            off = np.round(_unit(rng) * sc * _logu(rng, 1e3, 3e6), 0 if sc > 1e-3 else 12)
+            if np.all(np.isfinite(off)):
+                V = [v + off for v in V]
         return {"current": rng.choice([1.0, -1.0]) * _logu(rng, 0.01, 100.0), "vertices": [v.tolist() for v in V]}
     if cls == "Dipole":
         return {"moment": _pol(rng)}
@@ -712,8 +726,9 @@ def edge_angle(case, o):
 
 def region(case):
     """coarse, geometry-derived description of where the observer is (used in signatures):
-    inside|outside, then the special zone it lies in (on-axis, small-r, edge-extension) or,
-    when in none, the distance class near (<0.1 size) | mid | far (>10 size)"""
+    inside|outside, then the special zone(s) it lies in (on-axis, small-r, edge-extension, small-scale =
+    source smaller than 1e-3 in absolute numbers) or, when in none, the distance class near (<0.1 size)
+    | mid | far (>10 size)"""
     c, p = case["cls"], case["params"]
     o = np.asarray(case["obs_local"], float)
     inside, dist = inside_and_dist(case, o)
@@ -728,6 +743,8 @@ def region(case):
             tags.append("small-r")
     if edge_angle(case, o) < 1e-3:
         tags.append("edge-extension")
+    if s < 1e-3:
+        tags.append("small-scale")      # source smaller than 1e-3 in absolute numbers (SI: < 1 mm)
     if len(tags) == 1:
         rel = dist / s
         tags.append("near" if rel < 0.1 else "mid" if rel < 10 else "far")
